@@ -347,7 +347,13 @@ _RELT.update({"X02": ["C01", "C02", "C03", "C09", "C12", "C18", "C20"], "X03": [
 # eighth corpus (A<prop>.p<i>, written after seed round 15)
 _RELT.update({"A04": ["C03", "C04", "C05", "C07", "C08", "C15"], "A06": ["C03", "C04", "C05", "C06"], "A08": ["C03", "C04", "C05", "C08", "C19"], "A09": ["C03", "C09", "C12", "C18"],
               "A10": ["C01", "C02", "C10", "C18"], "A11": ["C01", "C03", "C11", "C18", "C20"], "A13": ["C01", "C02", "C13", "C18"], "A15": ["C03", "C04", "C07", "C08", "C15", "C16"]})
-_SKIPT = {("V14", 3), ("V18", 3), ("X14", 3)}
+# ninth corpus (B<prop>.p<i>, written after seed round 17)
+_RELT.update({"B18": ["C01", "C02", "C03", "C04", "C05", "C08", "C09", "C10", "C13", "C18", "C19", "C20"], "B20": ["C01", "C15", "C16", "C18", "C20"],
+              "B05": ["C03", "C04", "C05", "C06", "C07", "C17"], "B19": ["C01", "C02", "C18", "C19"]})
+# B05.p3 (the by-value iterator's two cursors merged into one `alive: Range<usize>` field: the owner discovery and the deque rules are stated on two
+# cursor fields) and B19.p3 (the odd storage node's DEFAULT built from its even sibling through a const fn that moves the halves with ptr::read:
+# C19.D is stated on struct aggregates of per-field DEFAULTs) are reported although behaviour-preserving - DESIGN 8.5
+_SKIPT = {("V14", 3), ("V18", 3), ("X14", 3), ("B05", 3), ("B19", 3)}
 for _g, _props in _RELT.items():
     for _i in (1, 2, 3):
         if (_g, _i) in _SKIPT:
@@ -574,3 +580,8 @@ mutant_on_patch("m-A06p3-rfold-stops-one-early", "A06.p3", ["C06", "C03"], [("sr
 
 benign("c06-fold-as-a-loop-over-its-own-cursors", ["C03", "C04", "C05", "C06"], [("src/iter.rs", '        let ret = unsafe {\n            let GenericArrayIter {\n                ref array,\n                ref mut index,\n                index_back,\n            } = self;\n\n            let remaining = array.get_unchecked(*index..index_back);\n\n            remaining.iter().fold(init, |acc, src| {\n                let value = ptr::read(src);\n\n                *index += 1;\n\n                f(acc, value)\n            })\n        };\n', '        let base: *const T = self.array.as_ptr();\n        let mut ret = init;\n\n        while self.index < self.index_back {\n            let value = unsafe { ptr::read(base.add(self.index)) };\n\n            self.index += 1;\n\n            ret = f(ret, value);\n        }\n')])
 mutant("c06-fold-cursor-loop-advances-before-reading", ["C06", "C03"], [("src/iter.rs", '        let ret = unsafe {\n            let GenericArrayIter {\n                ref array,\n                ref mut index,\n                index_back,\n            } = self;\n\n            let remaining = array.get_unchecked(*index..index_back);\n\n            remaining.iter().fold(init, |acc, src| {\n                let value = ptr::read(src);\n\n                *index += 1;\n\n                f(acc, value)\n            })\n        };\n', '        let base: *const T = self.array.as_ptr();\n        let mut ret = init;\n\n        while self.index < self.index_back {\n            self.index += 1;\n\n            let value = unsafe { ptr::read(base.add(self.index)) };\n\n            ret = f(ret, value);\n        }\n')], "")
+
+# ninth corpus (B<prop>.p<i>): wrong versions of the new forms
+mutant_on_patch("m-B20p3-repeat-vec-one-short", "B20.p3", ["C20"], [("src/arr.rs", "$crate::alloc::vec![$x; __LEN])", "$crate::alloc::vec![$x; __LEN - (__LEN > 3) as usize])")], "C20.B")
+mutant_on_patch("m-B18p3-view-on-a-flattening-that-is-one-too-long", "B18.p3", ["C02", "C13", "C01"], [("src/lib.rs", "slice::from_raw_parts(slice.as_ptr() as *const T, slice.len() * N::USIZE)", "slice::from_raw_parts(slice.as_ptr() as *const T, slice.len() * N::USIZE + (N::USIZE > 30) as usize)")], "")
+mutant_on_patch("m-B19p2-zeroize-helper-skips-the-first", "B19.p2", ["C19"], [("src/impl_zeroize.rs", "    GenericArray::slice_from_chunks_mut(chunks)\n", "    GenericArray::slice_from_chunks_mut(chunks)[(N::USIZE > 20) as usize..]\n")], "C19.Z")
